@@ -16,7 +16,34 @@ def positions(ctx, n):
     if key not in ctx.cache:
         lines = core.model_gen(['positions', ctx.seed, n])
         ctx.cache[key] = [l.split(' ')[1] for l in lines if l.startswith('pos ')]
+        ctx.stats['position_features_%d' % n] = feature_histogram(ctx.cache[key])
     return ctx.cache[key]
+
+
+def feature_histogram(pos):
+    """input distribution of the generated positions (computed by the model): how often each feature occurs"""
+    sample = pos[:1500]
+    ans = core.run_model(['features %s' % p for p in sample])
+    h = {'positions': len(pos), 'distinct': len(set(pos)), 'sampled': len(sample), 'in_check': 0, 'no_legal_move': 0, 'promotion_available': 0,
+         'castling_available': 0, 'en_passant_capture_available': 0, 'ep_square_set': 0, 'some_castling_right': 0, 'black_to_move': 0,
+         'has_illegal_pseudo_move': 0, 'halfmove_ge_100': 0, 'pieces_le_6': 0, 'pieces_7_16': 0, 'pieces_ge_17': 0}
+    for a in ans:
+        f = dict(kv.split('=') for kv in a.split(' ') if '=' in kv)
+        if not f:
+            continue
+        h['in_check'] += f['incheck'] == '1'
+        h['no_legal_move'] += f['legal'] == '0'
+        h['promotion_available'] += f['promo'] == '1'
+        h['castling_available'] += f['castle'] == '1'
+        h['en_passant_capture_available'] += f['epcap'] == '1'
+        h['ep_square_set'] += f['epset'] == '1'
+        h['some_castling_right'] += f['rights'] != '0'
+        h['black_to_move'] += f['turn'] == '1'
+        h['has_illegal_pseudo_move'] += f['pinned_or_illegal'] != '0'
+        h['halfmove_ge_100'] += int(f['hm']) >= 100
+        n = int(f['pieces'])
+        h['pieces_le_6' if n <= 6 else ('pieces_7_16' if n <= 16 else 'pieces_ge_17')] += 1
+    return {k: int(v) for k, v in h.items()}
 
 
 def games(ctx, n, maxlen):
@@ -190,11 +217,15 @@ def c01_cases(ctx):
     cases += [Case('pseudo %s' % p, 'pseudo+filter', spec='spec:legal %s' % p) for p in pos]
     cases += all_cases(ctx, pos, 'nq', 'capture-promotion-generator')
     for p in pos[:ctx.scale(120, 1500)]:
-        cases.append(Case('perft %s 2' % p, 'perft-2'))
+        cases.append(Case('perft %s 2' % p, 'perft-2', spec='spec:perft %s 2' % p))
     for p in pos[:ctx.scale(25, 300)]:
-        cases.append(Case('perft %s 3' % p, 'perft-3'))
+        cases.append(Case('perft %s 3' % p, 'perft-3', spec='spec:perft %s 3' % p))
     for f in wf_corpus('perft_roots.txt'):
-        cases.append(Case('perft %s %d' % (f, ctx.scale(3, 4)), 'perft-roots'))
+        d = ctx.scale(3, 4)
+        cases.append(Case('perft %s %d' % (f, d), 'perft-roots', spec=('spec:perft %s %d' % (f, d)) if d <= 3 else None))
+    # positions reached by the board's OWN make along played lines (state carried by make feeds the generator)
+    for g in games(ctx, ctx.scale(400, 6000), 80):
+        cases.append(Case('legalafter %s' % ' '.join(g), 'legal-moves-after-played-line', spec='spec:legalafter %s' % ' '.join(g)))
     return cases
 
 
@@ -890,7 +921,7 @@ PROPS = {
                 cases=c11_cases, post=c11_post,
                 anchors=['engine_core/src/engine/heuristic.rs', 'engine_core/src/engine/heuristic/simple.rs', 'engine_core/src/engine/search.rs']),
     'C12': dict(modules=['Inkayaku.Props.C12'], theorems=['Inkayaku.C12.wf_repr', 'Inkayaku.C12.print_parse_board', 'Inkayaku.C12.print_parse_legal', 'Inkayaku.C12.decode_correct', 'Inkayaku.C12.decode_correct_four', 'Inkayaku.C12.decode_then_print', 'Inkayaku.C12.four_field_defaults', 'Inkayaku.C12.parse_print_canonical', 'Inkayaku.C12.parse_print_same', 'Inkayaku.C12.parse_print_four', 'Inkayaku.C12.reject_field_count', 'Inkayaku.C12.reject_illegal_char', 'Inkayaku.C12.reject_rank_sum', 'Inkayaku.C12.reject_adjacent_digits', 'Inkayaku.C12.reject_bad_side', 'Inkayaku.C12.reject_bad_castling', 'Inkayaku.C12.reject_bad_ep', 'Inkayaku.C12.reject_bad_clock', 'Inkayaku.C12.parse_no_panic_branch'], cases=c12_cases, anchors=['core/src/fen.rs', 'board/src/board.rs']),
-    'C13': dict(modules=[], theorems=[], cases=c13_cases, anchors=BOARD_ANCHORS),
+    'C13': dict(modules=['Inkayaku.Props.C13'], theorems=['Inkayaku.C13.findUci_pure', 'Inkayaku.C13.findUci_ok_iff', 'Inkayaku.C13.findUci_ok_iff_legal', 'Inkayaku.C13.findUci_err_kinds', 'Inkayaku.C13.makeUci_spec', 'Inkayaku.C13.makeAllUci_all_or_nothing', 'Inkayaku.C13.findUci_idempotent', 'Inkayaku.C13.uciToSan_pure', 'Inkayaku.C13.uciToSan_err_iff', 'Inkayaku.C13.sanToMove_legal'], cases=c13_cases, anchors=BOARD_ANCHORS),
     'C14': dict(modules=[], theorems=[], cases=c14_cases, anchors=BOARD_ANCHORS),
     'C15': dict(modules=['Inkayaku.Props.C15'],
                 theorems=['Inkayaku.C15.tokenize_pad', 'Inkayaku.C15.ucimove_roundtrip', 'Inkayaku.C15.parse_render_simple',
